@@ -42,7 +42,7 @@ var c05SyncEntries = []string{"readHeader", "headersFromFrame", "adapter.execute
 // entry point properties
 func c05Framed(entry string) bool {
 	switch entry {
-	case "nats.client", "nats.server", "http", "framed.processor", "nats.sub", "stomp.sub", "adapter.stream", "simple.stream":
+	case "nats.client", "nats.server", "http", "http.client", "framed.processor", "nats.sub", "stomp.sub", "adapter.stream", "simple.stream":
 		return true
 	}
 	return false
@@ -50,7 +50,7 @@ func c05Framed(entry string) bool {
 
 func c05IsResponse(entry string) bool {
 	switch entry {
-	case "adapter.execute", "nats.client", "client.reply", "adapter.stream":
+	case "adapter.execute", "nats.client", "client.reply", "adapter.stream", "http.client":
 		return true
 	}
 	return false
@@ -122,8 +122,19 @@ func genC05For(entries []string) func(t *rapid.T) c05Case {
 		if !c05IsResponse(c.Entry) && c.Entry != "readHeader" && c.Entry != "headersFromFrame" && c.Entry != "subscriber.callback" && c.Entry != "nats.sub" && c.Entry != "stomp.sub" {
 			kinds = append(kinds, "huge-name")
 		}
+		if c05Framed(c.Entry) {
+			kinds = append(kinds, "prefix-only")
+		}
 		kind := rapid.SampledFrom(kinds).Draw(t, "mut")
 		switch kind {
+		case "prefix-only":
+			// nothing but a 4-byte frame size (its own, zero or hostile)
+			cur := binary.BigEndian.Uint32(data)
+			nv := rapid.SampledFrom(append([]uint32{cur, 0, 0}, hostile...)).Draw(t, "prefix")
+			data = data[:4]
+			binary.BigEndian.PutUint32(data, nv)
+			c.Desc = fmt.Sprintf("only a frame size prefix %#x", nv)
+			c.SizeMut = true
 		case "huge-name":
 			// a well-formed request for an unknown method whose name is so long that the
 			// UNKNOWN_METHOD reply (which repeats it) cannot fit a bounded reply buffer
@@ -185,8 +196,11 @@ func genC05For(entries []string) func(t *rapid.T) c05Case {
 		}
 		c.Data = data
 		c.Deep = len(data) >= minLen && data[minLen-1] == 0
-		if c.Entry == "http" {
+		if c.Entry == "http" || c.Entry == "http.client" {
 			c.Raw = rapid.IntRange(0, 5).Draw(t, "raw") == 0
+		}
+		if c.Entry == "http.client" {
+			c.Hdr = rapid.SampledFrom([]string{"", "", "", "", "413", "500", "204"}).Draw(t, "httpstatus")
 		}
 		if c.Entry == "nats.client" {
 			c.Hdr = rapid.SampledFrom([]string{"", "", "", "503", "404", "x"}).Draw(t, "status")
